@@ -161,6 +161,77 @@ theorem frame_decode_consumes_one (cfg : Cfg) (hrec : cfg.recs = none) (flex : B
     simp [discardAll]
 
 
+
+/-- `frameRequest` writes the client id as the model encoding of a (nullable iff flexible) string -/
+theorem clientID_enc (flex : Bool) (cid : Bytes) :
+    (if flex then encString false true cid ++ uvarint 0 else encString false false cid) =
+      encode (.string false flex) (.str cid) ++ (if flex then uvarint 0 else []) := by
+  cases flex <;> simp [encode]
+
+/-- **A framed request decodes to what was encoded and exactly one frame is consumed** (`ReadRequest` on
+`WriteRequest`'s output followed by anything): api key, version, correlation id, client id and the (normalised) body. -/
+theorem frame_request_decode (cfg : Cfg) (hrec : cfg.recs = none) (flex : Bool) (key ver corr : Int) (cid : Bytes)
+    (t : Ty) (v : Val) (rest : Bytes) (hwf : t.wf = true) (hwt : wt t v = true)
+    (hk : inRange 16 key = true) (hv : inRange 16 ver = true) (hc : inRange 32 corr = true) (hcid : cid.length < 2 ^ 15)
+    (hsz : (frameRequest flex key ver corr cid t v).length - 4 < 2 ^ 31) :
+    readRequest cfg flex t (frameRequest flex key ver corr cid t v ++ rest) = .ok (key, ver, corr, cid, norm t v) ⟨rest, 0⟩ := by
+  have hk' : inRange (8 * 2) key = true := hk
+  have hv' : inRange (8 * 2) ver = true := hv
+  have hc' : inRange (8 * 4) corr = true := hc
+  have hu0 : (uvarint 0).length = 1 := by simp [uvarint]
+  have hcw : wt (.string false flex) (.str cid) = true := by simp [wt]; omega
+  -- normalise the frame: header ints, client id as a model string, optional tag buffer, body
+  have hframe : frameRequest flex key ver corr cid t v =
+      be 4 ((encInt 2 key ++ encInt 2 ver ++ encInt 4 corr ++
+        (encode (.string false flex) (.str cid) ++ (if flex then uvarint 0 else [])) ++ encode t v).length) ++
+      (encInt 2 key ++ (encInt 2 ver ++ (encInt 4 corr ++
+        (encode (.string false flex) (.str cid) ++ ((if flex then uvarint 0 else []) ++ encode t v))))) := by
+    simp only [frameRequest, clientID_enc, List.append_assoc]
+  rw [hframe] at hsz ⊢
+  generalize hC : encode (.string false flex) (.str cid) = C at hsz ⊢
+  generalize hT : (if flex = true then uvarint 0 else []) = T at hsz ⊢
+  have hTl : T.length ≤ 1 := by rw [← hT]; split <;> simp [hu0]
+  simp only [List.length_append, be_length, encInt_length] at hsz
+  simp only [readRequest, List.append_assoc, List.length_append, encInt_length]
+  rw [be_eq_encInt 4 _ (by omega)]
+  have hin : inRange (8 * 4) ((2 + (2 + (4 + (C.length + (T.length + (encode t v).length)))) : Nat) : Int) = true := by
+    simp only [inRange, Bool.and_eq_true, decide_eq_true_eq]; constructor <;> omega
+  rw [readInt_encInt 4 _ 4 _ (by decide) hin (by omega)]
+  have h0 : ¬ (((2 + (2 + (4 + (C.length + (T.length + (encode t v).length)))) : Nat) : Int) < 0) := by omega
+  simp only [Res.bind, h0, if_false, Int.toNat_natCast]
+  rw [readInt_encInt 2 key _ _ (by decide) hk' (by omega)]
+  simp only []
+  rw [readInt_encInt 2 ver _ _ (by decide) hv' (by omega)]
+  simp only []
+  rw [readInt_encInt 4 corr _ _ (by decide) hc' (by omega)]
+  simp only []
+  rw [← hC, rt_string cfg false flex hrec (by rfl) (.str cid) hcw _ _ (by rw [hC]; omega)]
+  simp only [norm, hC]
+  -- the header tag buffer and the body
+  unfold readRequestBody
+  have htag : ∀ (d : Dec), d = ⟨T ++ (encode t v ++ rest), T.length + (encode t v).length⟩ →
+      ((if flex = true then
+          (readUvarint d).bind fun n d => (tagCount cfg n d).bind fun k d => skipHeaderTags cfg k d
+        else Res.ok () d) : Res Unit) = Res.ok () ⟨encode t v ++ rest, (encode t v).length⟩ := by
+    intro d hd
+    subst hd
+    cases flex
+    · simp only [Bool.false_eq_true, if_false] at hT ⊢
+      subst hT
+      simp
+    · simp only [if_true] at hT ⊢
+      subst hT
+      rw [readUvarint_uvarint 0 _ _ (by decide) (by omega)]
+      have hl : lenOfU cfg 0 = 0 := lenOfU_small cfg 0 (by decide)
+      simp only [Res.bind, tagCount, hl]
+      simp [skipHeaderTags, hu0]
+  have hn : 2 + (2 + (4 + (C.length + (T.length + (encode t v).length)))) - 2 - 2 - 4 - C.length =
+      T.length + (encode t v).length := by omega
+  rw [hn, htag _ rfl]
+  simp only [Res.bind]
+  rw [decode_encode cfg hrec t v hwf hwt rest _ (Nat.le_refl _)]
+  simp [discardAll]
+
 /-! ### unknown tagged fields are skipped -/
 
 /-- a tagged field as a (newer) broker writes it: tag id, size, payload -/
